@@ -18,6 +18,7 @@
                                         exactly the answer recorded at its linearization point
     linearized_answer                   an answer recorded in a legal history is the sequential cache's answer
                                         on the history before it
+    cache_discipline_checked            the obligations on the table extracted from cache.cc (Gen.lean)
     cache_*                             the theorems above for `Gen.disc`, the discipline extracted from cache.cc
     driver_states_reachable             whatever the driver executes is reachable
   and for the broken disciplines, schedules (evaluated by the executable model) on which a lookup
@@ -155,6 +156,13 @@ theorem lookup_is_sequential {d : Disc} (hd : d.ok = true) {c : Cfg} {s : S} (h 
   simpa [Mem.legal] using hleg
 
 /-! ### the discipline extracted from cache.cc (lean/Vita/C15/Gen.lean, regenerated on every run) -/
+
+/-- the obligations on the extracted table (Gen.lean, `by decide`): every write under the exclusive lock,
+    every read under at least the shared lock, nothing escapes; every function that touches the table is
+    an operation of the model; hence the discipline is `ok` -/
+theorem cache_discipline_checked :
+    Gen.fns.all (FnInfo.disciplined Gen.mutexShared) = true ∧ Gen.fns.all FnInfo.modelled = true ∧
+    Gen.disc.ok = true := ⟨Gen.all_disciplined, Gen.all_modelled, Gen.disc_ok⟩
 
 theorem cache_mutex_inv {c : Cfg} {s : S} (h : Reach Gen.disc c s) (t u : Tid) (htu : t ≠ u)
     (ht : lockOf Gen.disc (s.th t) = .excl) : lockOf Gen.disc (s.th u) = .none := mutex_inv h t u htu ht
